@@ -91,6 +91,14 @@ type gres struct {
 	steps int
 }
 
+// text is the deterministic description of the observation.
+func (g *gres) text() string {
+	if g.kind == "mismatch" && g.diff != nil && g.msg == "" {
+		return fmt.Sprintf("after interrupt + resume through the checkpoint store the %s value differs: %s", g.slot, g.diff.text())
+	}
+	return g.msg
+}
+
 // roundTripGraph writes the value into a checkpoint by a real interrupt and reads it back by a real resume.
 func (g *graphRig) roundTrip(in reflect.Value) (res *gres) {
 	res = &gres{}
@@ -150,7 +158,6 @@ func (g *graphRig) roundTrip(in reflect.Value) (res *gres) {
 		d := compareTop(in, sl.got)
 		if d.kind != "ok" {
 			res.kind, res.slot, res.diff = "mismatch", sl.name, d
-			res.msg = fmt.Sprintf("after interrupt + resume through the checkpoint store the %s value differs: %s", sl.name, d.msg)
 			return res
 		}
 	}
